@@ -36,7 +36,7 @@ META = {
         "srctools.binformat:struct_read", "srctools.binformat:read_nullstr", "srctools.binformat:read_nullstr_array",
         "srctools.tokenizer:escape_text",
     ],
-    "bounds": "graphs: 11 shapes of <= 4 elements (single, chain, shared child, root self-reference, 2-cycle off the root, cycle and "
+    "bounds": "graphs: 13 shapes of <= 4 elements (single, chain, shared child, root self-reference, nested self-reference (scalar and array), 2-cycle off the root, cycle and "
               "array entry through the root, NULL scalar/in array, stub scalar, stubs in array (shared + distinct), diamond, empty "
               "element array); encodings binary v1-5 and KV2 {nested,flat} x {cull_uuid}; unicode modes ascii/format/silent; hostile "
               "strings by symbolic index from finite lists (<= 16 entries: empty, quote, backslash, backslash-n, newline, tab, braces, "
@@ -250,12 +250,18 @@ def _build_shape(shape):
         root["none"] = A.array("none", VT.ELEMENT, [])
         root["one"] = A.array("one", VT.ELEMENT, [a])
         a["kids"] = A.array("kids", VT.ELEMENT, [b, c])
+    elif shape == 11:     # nested element referenced once that refers to itself (scalar)
+        root["child"] = a
+        a["me"] = a
+    elif shape == 12:     # nested element referenced once that holds itself in an array
+        root["child"] = a
+        a["loop"] = A.array("loop", VT.ELEMENT, [b, a])
     else:
         raise AssertionError(shape)
     return root
 
 
-N_SHAPES = 11
+N_SHAPES = 13
 
 
 # ------------------------------------------------------------------------------------------------------------
@@ -759,7 +765,7 @@ def obligations(tier):
     obls.append(Obl("graph.roundtrip", MOD, "h_graph", slices=[{}], budget_s=900, per_path_s=60,
                     desc="export -> Element.parse gives an isomorphic graph (types, names, UUIDs, sharing/cycles by identity maps, "
                          "NULL and stubs kept, attribute order/casing/type/shape/values); binary bytes agree with an independent decoder",
-                    bound="11 shapes x 9 encodings (binary v1-5, KV2 nested/flat x cull_uuid) x 3 unicode modes, all by symbolic index"))
+                    bound="13 shapes x 9 encodings (binary v1-5, KV2 nested/flat x cull_uuid) x 3 unicode modes, all by symbolic index"))
     obls.append(Obl("graph.witness", MOD, "h_graph_witness", slices=[{}], budget_s=120, per_path_s=60, witness=True, desc="reachability twin"))
     slots = ["rootname", "name", "roottype", "type", "attr", "sval", "sarr", "attr_child"]
     obls.append(Obl("strings.roundtrip", MOD, "h_strings", slices=[{"slot": s} for s in slots], budget_s=900, per_path_s=60,
